@@ -43,15 +43,18 @@ type verifRequest struct {
 	Op string `json:"op"`
 
 	// pipeline
-	Proto      string            `json:"proto"`
-	Workers    int               `json:"workers"`
-	UDPSize    int               `json:"udpsize"`
-	Filter     []uint32          `json:"filter"`
-	ResetCache bool              `json:"reset_cache"`
-	Mirror     bool              `json:"mirror"`
-	MirrorDst  string            `json:"mirror_dst"`
-	MirrorPort int               `json:"mirror_port"`
-	Phases     [][]verifDatagram `json:"phases"`
+	Proto      string   `json:"proto"`
+	Workers    int      `json:"workers"`
+	UDPSize    int      `json:"udpsize"`
+	Filter     []uint32 `json:"filter"`
+	ResetCache bool     `json:"reset_cache"`
+	Mirror     bool     `json:"mirror"`
+	MirrorDst  string   `json:"mirror_dst"`
+	MirrorPort int      `json:"mirror_port"`
+	// MirrorWorkers > 0: what the workers queued for mirroring goes through the real dispatcher with that many
+	// mirror workers (the configuration a collector runs with) instead of through one mirror function
+	MirrorWorkers int               `json:"mirror_workers"`
+	Phases        [][]verifDatagram `json:"phases"`
 	// max-udp-size of the protocols other than Proto (0 = same as UDPSize)
 	OtherUDPSize int `json:"other_udpsize"`
 	// Churn > 0: after every Churn-th datagram of a phase one running worker of Proto's pipeline is told to
@@ -145,6 +148,12 @@ func verifPipeline(req *verifRequest) (resp verifResponse) {
 	sFlowMirrorEnabled = req.Mirror && req.Proto == "sflow"
 
 	ix, n9, n5, sf := NewIPFIX(), NewNetflowV9(), NewNetflowV5(), NewSFlow()
+
+	// dispatchers of this request (mirror_workers > 0), started with its first phase
+	var (
+		dispIPFIX chan IPFIXUDPMsg
+		dispSFlow chan SFUDPMsg
+	)
 
 	// the four pipelines: queue to drain, queue length, decoded counter, worker, injection as the receive loop does
 	// (pooled buffer, copy, b[:n], send)
@@ -304,8 +313,52 @@ func verifPipeline(req *verifRequest) (resp verifResponse) {
 			}
 			pr.Others[name] = *published[name]
 		}
-		// what the workers queued for mirroring goes through the real mirror function
-		if req.Mirror {
+		// what the workers queued for mirroring goes through the real dispatcher and its workers ...
+		if req.Mirror && req.MirrorWorkers > 0 {
+			switch req.Proto {
+			case "ipfix":
+				if dispIPFIX == nil {
+					opts.IPFIXMirrorAddr, opts.IPFIXMirrorPort, opts.IPFIXMirrorWorkers = req.MirrorDst, req.MirrorPort, req.MirrorWorkers
+					dispIPFIX = make(chan IPFIXUDPMsg, 1000)
+					go mirrorIPFIXDispatcher(dispIPFIX)
+				}
+			LOOPDI:
+				for {
+					select {
+					case m := <-ipfixMCh:
+						dispIPFIX <- m
+						pr.Mirrored++
+					default:
+						break LOOPDI
+					}
+				}
+				for i := 0; i < 2000 && len(dispIPFIX) > 0; i++ {
+					time.Sleep(time.Millisecond)
+				}
+			case "sflow":
+				if dispSFlow == nil {
+					opts.SFlowMirrorAddr, opts.SFlowMirrorPort, opts.SFlowMirrorWorkers = req.MirrorDst, req.MirrorPort, req.MirrorWorkers
+					dispSFlow = make(chan SFUDPMsg, 1000)
+					go mirrorSFlowDispatcher(dispSFlow)
+				}
+			LOOPDS:
+				for {
+					select {
+					case m := <-sFlowMCh:
+						dispSFlow <- m
+						pr.Mirrored++
+					default:
+						break LOOPDS
+					}
+				}
+				for i := 0; i < 2000 && len(dispSFlow) > 0; i++ {
+					time.Sleep(time.Millisecond)
+				}
+			}
+			// the dispatcher's own queues and the workers' last sends
+			time.Sleep(20 * time.Millisecond)
+		} else if req.Mirror {
+			// ... or through one real mirror function
 			dst := net.ParseIP(req.MirrorDst)
 			switch req.Proto {
 			case "ipfix":
